@@ -22,7 +22,7 @@ type c08Event struct {
 	Batch   []c08Event `json:"batch,omitempty"`
 }
 
-var c08VariantNames = []string{"clean", "syntax", "unused", "undefined", "defglobal", "useglobal", "require", "requiremissing", "annoclass", "useannoclass", "dupkey", "empty", "undefinedB", "requiremissingB", "useglobalB"}
+var c08VariantNames = []string{"clean", "syntax", "unused", "undefined", "defglobal", "useglobal", "require", "requiremissing", "annoclass", "useannoclass", "dupkey", "empty", "undefinedB", "requiremissingB", "useglobalB", "dofile"}
 
 // c08Variant renders content variant v for file index i of n files.
 func c08Variant(v string, i, n int, layout string) string {
@@ -42,6 +42,9 @@ func c08Variant(v string, i, n int, layout string) string {
 		return fmt.Sprintf("local a%d = GShared%d\nprint(a%d, GFunc%d(1, 2, 3))\n", i, nxt, i, nxt)
 	case "require":
 		return fmt.Sprintf("local m%d = require(\"%s\")\nprint(m%d)\n", i, c08Module(layout, nxt, i%2 == 1), i)
+	case "dofile":
+		// a reference with a file suffix, resolved through the file-exists cache
+		return fmt.Sprintf("dofile(\"%s\")\nprint(%d)\n", c08RelL(layout, nxt), i)
 	case "requiremissing":
 		return fmt.Sprintf("local m%d = require(\"nomod%d\")\nprint(m%d)\n", i, i, i)
 	case "annoclass":
@@ -294,7 +297,7 @@ func runC08(c *Ctx) {
 		}
 	})
 	c.Finish("histories of 5-40 events (create/external change/delete with watched-file notifications, open, unsaved edit, save, close, batches) over 3-6 files whose content "+
-		"switches between 15 variants (empty file, three pairs of twins whose diagnostics differ in the message only, clean, syntax error, unused local, undefined name, defines/uses a cross-file global, requires an existing/missing module, annotation "+
+		"switches between 16 variants (dofile of another file by path, empty file, three pairs of twins whose diagnostics differ in the message only, clean, syntax error, unused local, undefined name, defines/uses a cross-file global, requires an existing/missing module, annotation "+
 		"class defined/used, duplicate key); at every quiescent point the live client view and probe answers are compared with a fresh server on the same directory; while a "+
 		"buffer is dirty its file's view is compared with the buffer's own syntax errors. distinct_nontrivial = distinct (history prefix) states compared with a fresh server", 40)
 }
